@@ -64,6 +64,20 @@ def sym_float(value=0):
     return float(value)
 
 
+def sym_int(value=0, *a):
+    """int() for C02: a symbolic scalar stays a SymPy expression -- ceiling/floor as they are, anything else truncated toward zero
+    (floor on the non-negative branch, ceiling on the negative one: a fork)"""
+    try:
+        v = sp.sympify(value)
+    except (sp.SympifyError, TypeError):
+        return int(value, *a)
+    if isinstance(v, sp.Basic) and v.free_symbols and lift.only_vs(v):
+        if isinstance(v, (sp.ceiling, sp.floor)):
+            return v
+        return sp.floor(v) if bool(lift.SymBool(lift.S().z(v) >= 0)) else sp.ceiling(v)
+    return int(value, *a)
+
+
 class ForkFloat(lift.SymFloat):
     """comparisons decide immediately (fork) and return a plain bool, as SymPy's is_ge dispatch expects"""
 
@@ -111,7 +125,7 @@ def bindings(mod=None):
         except TypeError:
             return False
     # SymPy captures assumption handlers in cls._prop_handler at class creation: rebind there as well
-    extra = [(mod, "float", sym_float)] if mod is not None else []
+    extra = [(mod, "float", sym_float), (mod, "int", sym_int)] if mod is not None else []
     return standard_bindings() + extra + [(CV, "float", sym_float), (QT, "float", sym_float), (QT, "scale_factor", lifted_scale_factor),
                                           (QT.Quantity, "_eval_is_positive", is_positive),
                                           (QT.Quantity._prop_handler, "positive", is_positive),
@@ -296,22 +310,38 @@ def check_function(item):
                         e_ = nice(side.subs(reps)).subs({**sub, target: tval}, simultaneous=True)
                         return e_.xreplace({sp.oo: INF, -sp.oo: -INF}) if e_.has(sp.oo, -sp.oo) else e_
 
+                    def zabs1(e_):
+                        """|re| + |im| of an instantiated expression (complex-valued laws: impedances, admittances) as a z3 term"""
+                        if e_.has(sp.I):
+                            parts = sp.expand_complex(e_).as_real_imag()
+                        else:
+                            parts = (e_,)
+                        zs = [ses.z(x) for x in parts if x != 0]
+                        return z3.Sum([z3.If(t >= 0, t, -t) for t in zs]) if zs else z3.RealVal(0)
+
                     def far(tval):
                         Le, Re = inst(eq.lhs, tval), inst(eq.rhs, tval)
-                        L, R = ses.z(Le), ses.z(Re)
-                        d = L - R
-                        az = z3.If(d >= 0, d, -d)
+                        az = zabs1(Le - Re)
                         # numerical-precision form: |lhs - rhs| <= 1e-9 * (sum of the magnitudes of the top-level terms of both sides);
                         # the terms, not the sides, set the scale so that cancellation to ~0 (log(1), a - a) keeps a meaningful tolerance
                         mags = []
                         for side in (eq.lhs, eq.rhs):
                             for t in sp.Add.make_args(side):      # terms of the published equation, instantiated one by one
-                                tz = ses.z(inst(t, tval))
-                                mags.append(z3.If(tz >= 0, tz, -tz))
+                                mags.append(zabs1(inst(t, tval)))
                         return z3.And(az > qv(Fraction(1, 10**9)) * z3.Sum(mags), az > 0)
                     goal = [far(core)]
                     if wrapped is None and magnitude_allowed:
                         goal.append(far(-core))          # the function documents/returns a magnitude: result = |solution|
+                        other = eq.rhs if eq.lhs == target else eq.lhs if eq.rhs == target else None
+                        if other is not None and not other.has(target):
+                            o_ = inst(other, core)
+                            if o_.has(sp.I):
+                                # complex solution: magnitude = modulus, result >= 0 and result**2 == re**2 + im**2
+                                re_, im_ = sp.expand_complex(o_).as_real_imag()
+                                m2 = ses.z(re_) * ses.z(re_) + ses.z(im_) * ses.z(im_)
+                                c_ = ses.z(core)
+                                d_ = c_ * c_ - m2
+                                goal.append(z3.Or(c_ < 0, z3.If(d_ >= 0, d_, -d_) > qv(Fraction(1, 10**9)) * (c_ * c_ + m2)))
                     r, m = ses.check(p.pc + goal)
                 except (Unencodable, LiftUnsupported) as e:
                     verdicts.append(("unencoded", f"residual of {ename}: {str(e)[:60]}"))
@@ -489,6 +519,12 @@ for en, eq in eqs.items():
     target = out_sym if (out_sym is not None and eq.has(out_sym)) else (free[0] if len(free) == 1 else None)
     if target is None or [s for s in free if s != target]: continue
     reps = {{q: q.scale_factor for q in e.atoms(SymQuantity)}}
+    if rs.is_Integer and not isinstance(res, SymQuantity) and "int" in str(sig.return_annotation):
+        # a function documented to return the rounded-up integer of the solution: compare with ceiling(solution of the law)
+        sols = [x for x in sp.solve(sp.Eq(eq.lhs, eq.rhs).subs(reps).subs(sub, simultaneous=True), target) if sp.N(x).is_real]
+        print("equation", en, "solutions for", target, ":", [sp.N(x, 20) for x in sols], " returned", rs)
+        if sols and not any(sp.ceiling(x) == rs for x in sols): bad = True
+        continue
     full = {{**sub, target: core}}
     def sides(full):
         Le = eq.lhs.subs(reps).subs(full, simultaneous=True); Re = eq.rhs.subs(reps).subs(full, simultaneous=True)
@@ -501,8 +537,10 @@ for en, eq in eqs.items():
         return abs(L - R) <= 1e-6 * scale
     ok = agree(L, R, scale)
     if not ok and magnitude:
-        L, R, scale = sides({{**sub, target: -core}})
-        ok = agree(L, R, scale)
+        L2, R2, scale2 = sides({{**sub, target: -core}})
+        ok = agree(L2, R2, scale2)
+        if not ok and not (L.is_real and R.is_real):
+            ok = abs(abs(L) - abs(R)) <= 1e-6 * scale        # complex solution: the documented magnitude is the modulus
     if not ok: bad = True
 if bad:
     print("REPRODUCED"); sys.exit(1)
